@@ -107,6 +107,12 @@ def check(run):
         circ.layer_compile(run, layer.methods['compile'])
         circ.gate_compile(run, gate.methods['compile'])
         CR.check_take(run, repo, layer.methods['take'], has_measure)
+        # copies of gates and layers are the same gates and layers (every field carried over, none under a foreign condition)
+        from .C17 import COPY_FIELDS as _CF
+        from ..rules import effect as _E
+        for c_, n_ in ((gate, 'CliffordGate'), (layer, 'CliffordLayer')):
+            if 'copy' in c_.methods:
+                _E.check_copy(run, eff, c_.methods['copy'], _CF[n_])
         CR.check_placement(run, layer.methods['take'])
         for cn in ('CliffordGate', 'CliffordLayer', 'MeasureLayer', 'CliffordCircuit', 'Circuit'):
             kc = repo.find_cls(pkg, cn)
@@ -134,6 +140,10 @@ def check(run):
             run.check(len(rets) == 1 and rets[0].startswith('self.take(CliffordGate(*qubits'), 'R11.gate.new', g, 'gate()',
                       'gate(*qubits) must take a fresh map-less CliffordGate on those qubits (found %s)' % rets)
             if 'copy' in c.methods:
+                from .C17 import COPY_FIELDS
+                from ..rules import effect as E2_
+                if cname in COPY_FIELDS:
+                    E2_.check_copy(run, eff, c.methods['copy'], COPY_FIELDS[cname])     # the copy is the same circuit: every field carried over
                 CR.check_linked_list(run, c.methods['copy'])
                 cp = c.methods['copy']
                 loops = [st for st, _ in walk(cp.node) if isinstance(st, ast.For)]
